@@ -222,8 +222,9 @@ def run(ctx):
         raise AnalysisBroken("orcc: only %d high-half emissions found" % hi)
     # library readers
     readers = 0
-    for tub, fn in (("orcexecutor", "orc_executor_emulate"), ("orcexecutor", "orc_executor_set_param_int64"), ("orcexecutor", "orc_executor_set_param_double")):
-        f = db.func(fn, tub)
+    # every function of orcexecutor.c that touches ex->params at a non-zero distance from a variable index
+    for f in db.tu("orcexecutor").main_functions():
+        fn = f.name
         for n in f.walk():
             if n.k == "ArraySubscriptExpr" and (access_path(n.c[0]) or "").endswith("->params"):
                 t = unparse(n.c[1]).replace(" ", "")
@@ -236,6 +237,45 @@ def run(ctx):
                               "%s accesses the high half at distance %d, orcc writes it at distance %d" % (fn, lin[1], dist), line=n.line)
     if readers < 3:
         raise AnalysisBroken("only %d high-half readers found in orcexecutor.c" % readers)
+
+    # ---- D1b: the executor a wrapper hands to the code is completely filled in -------------------
+    # The wrapper's OrcExecutor is an uninitialised local.  JIT code takes a constant n/m as an immediate, but emulation
+    # (ORC_CODE=emulate, no executable memory, failed compile without backup) reads ex->n and ORC_EXECUTOR_M(ex): on every
+    # path of the emitter to the `func (ex);` line the stores of n, and of m for 2-D programs, must have been emitted.
+    import re as _re
+    from flow import path_to, atom as _atom
+    oce = tu.fn["output_code_execute"]
+    rep.saw(oce)
+
+    def emits(rx):
+        def pred(e):
+            if e.k != "CallExpr" or e.name != "fprintf":
+                return False
+            a = e.args()
+            lit = strip_casts(a[1]) if len(a) > 1 else None
+            return lit is not None and lit.k == "StringLiteral" and _re.search(rx, lit.get("str", "")) is not None
+        return pred
+    calls = [c for c in oce.calls("fprintf") if emits(r"\bfunc \(ex\);")(c)]
+    if len(calls) != 1:
+        raise AnalysisBroken("output_code_execute: expected one `func (ex);` emission, found %d" % len(calls))
+    P = oce.params[0]["name"]
+
+    def only_2d(b, idx):
+        blk = oce.blocks[b]
+        if blk.cond is None:
+            return True
+        n_, pol = _atom(blk.cond, True)
+        if n_ is not None and access_path(n_) == "%s->is_2d" % P:
+            ek = oce.edge_kind(b, idx)
+            return ek is None or (ek == pol)
+        return True
+    w = path_to(oce, calls[0], emits(r"ex->n = "))
+    rep.check(w is None, "D1-EMITTERS", where(oce), "executor:n", "ex->n is stored on every path to the call",
+              "orcc can emit a wrapper that calls the code without having stored ex->n (emulation and the region loops read it)")
+    w = path_to(oce, calls[0], emits(r"(ORC_EXECUTOR_M ?\(ex\)|ex->params\[ORC_VAR_A1\]) = "), only_2d)
+    rep.check(w is None, "D1-EMITTERS", where(oce), "executor:m", "for 2-D programs the row count is stored on every path to the call",
+              "orcc can emit a wrapper for a 2-D program that never stores ORC_EXECUTOR_M(ex) (path %s): orc_executor_emulate and the C "
+              "backup read the row count from the executor, so a constant .m works only as long as JIT code runs" % (w,))
 
     # ---- D3b: the two halves are combined without sign extension -----------------------------
     # (the code templates of orcprogram-c.c / orcc.c that assemble a 64-bit parameter are instantiated into a scratch
